@@ -45,6 +45,11 @@ def gen_case(rng, tier):
         case['w'] = rng.choice([1, 2, 3, 4, 5])
     elif c < 0.55:
         case['ctx'] = 'group2'
+    elif c < 0.65:
+        # one key (the root key of `multiplex`), the pipeline cut in two, each part under its own state store: what leaves the
+        # first store section must still be a MuxObservable for the operators of the second
+        case['ctx'] = 'top2'
+        case['cut'] = rng.randrange(1, len(term) + 1)
     return case
 
 
@@ -78,6 +83,8 @@ def mux_term(case):
         return [['split', ['nth', 0], inner]]
     if ctx == 'roll':
         return [['roll', case['w'], case['w'], inner]]
+    if ctx == 'top2':
+        return inner
     if ctx == 'group2':
         # a group_by nested in a group_by (same key: every outer group has one inner group; the outer groups are interleaved, so
         # several mapper dicts of the inner group_by are live at once and their groups must get distinct indices)
@@ -89,6 +96,8 @@ def groups(case):
     """the groups of the keyed run, in the order their lifetimes are created: label -> items"""
     ctx = case.get('ctx', 'group_by')
     gs = {}
+    if ctx == 'top2':
+        return {'all': [it['t'][1] for it in case['items']]}
     if ctx == 'split':          # maximal runs of equal group id, all served by the same inner key
         prev, n = object(), -1
         for it in case['items']:
@@ -108,7 +117,7 @@ def groups(case):
 
 def real(case):
     mt = mux_term(case)
-    r = muxprop.quiet(muxreal.run_mux, mt, case['items'], True)
+    r = muxprop.quiet(muxreal.run_mux, mt, case['items'], True, two_stores=case.get('cut') if case.get('ctx') == 'top2' else None)
     r['chunks'] = muxreal.trunc_chunks(r['chunks'])
     r['plain'] = {}
     for g, xs in groups(case).items():
@@ -194,6 +203,20 @@ def _oracle(case, r):
     if 'harness_exc' in r:
         return 'real code raised: ' + r['harness_exc']
     if r.get('raised'):
+        return None
+    if case.get('ctx') == 'top2':
+        plain = r['plain']['all']
+        if r.get('empty_input') or muxprop.has_fatal(plain):
+            return 'precondition-not-met'
+        want = muxprop.items_of(plain)
+        if muxprop.has_fatal(r['chunks']):
+            return ('the plain pipeline %s over %s completes normally with %s but the multiplexed run under two store sections (cut at %d) '
+                    'ends with an error %s' % (case['term'], groups(case)['all'], str(want)[:200], case['cut'],
+                                               [o for c_ in r['chunks'] for o in c_ if 'x' in o]))
+        outs = muxprop.items_of(r['chunks'])
+        if muxprop.strict_ne(outs, want):
+            return ('%s over %s under two store sections (cut at %d): multiplexed emits %s, plain emits %s'
+                    % (case['term'], groups(case)['all'], case['cut'], str(outs)[:300], str(want)[:300]))
         return None
     c = {'term': mux_term(case), 'items': case['items']}
     go = muxprop.group_outputs(c, r)
